@@ -22,7 +22,7 @@ type Packet struct {
 	Proto    string
 	From, To string
 	Data     []byte
-	Conn     int // tcp: id of the writing end; udp: 0
+	Conn     int  // tcp: id of the writing end; udp: 0
 	Driver   bool // written by a driver-side endpoint (a peer), not by the program
 }
 
@@ -179,7 +179,7 @@ func LookupHost(host string) ([]string, error) {
 }
 
 func LookupAddr(addr string) ([]string, error) { return nil, errNotSim("LookupAddr") }
-func LookupCNAME(host string) (string, error)   { return "", errNotSim("LookupCNAME") }
+func LookupCNAME(host string) (string, error)  { return "", errNotSim("LookupCNAME") }
 func LookupSRV(service, proto, name string) (string, []*net.SRV, error) {
 	return "", nil, errNotSim("LookupSRV")
 }
@@ -633,15 +633,15 @@ func (c *TCPConn) LocalAddr() net.Addr { return cloneTCPAddr(c.laddr) }
 //go:norace
 func (c *TCPConn) RemoteAddr() net.Addr { return cloneTCPAddr(c.raddr) }
 
-func (c *TCPConn) SetDeadline(t time.Time) error        { return nil }
-func (c *TCPConn) SetReadDeadline(t time.Time) error    { return nil }
-func (c *TCPConn) SetWriteDeadline(t time.Time) error   { return nil }
-func (c *TCPConn) SetKeepAlive(b bool) error            { return nil }
+func (c *TCPConn) SetDeadline(t time.Time) error            { return nil }
+func (c *TCPConn) SetReadDeadline(t time.Time) error        { return nil }
+func (c *TCPConn) SetWriteDeadline(t time.Time) error       { return nil }
+func (c *TCPConn) SetKeepAlive(b bool) error                { return nil }
 func (c *TCPConn) SetKeepAlivePeriod(d time.Duration) error { return nil }
-func (c *TCPConn) SetNoDelay(b bool) error              { return nil }
-func (c *TCPConn) SetLinger(n int) error                { return nil }
-func (c *TCPConn) CloseRead() error                     { return nil }
-func (c *TCPConn) CloseWrite() error                    { return c.Close() }
+func (c *TCPConn) SetNoDelay(b bool) error                  { return nil }
+func (c *TCPConn) SetLinger(n int) error                    { return nil }
+func (c *TCPConn) CloseRead() error                         { return nil }
+func (c *TCPConn) CloseWrite() error                        { return c.Close() }
 
 //go:norace
 func (c *TCPConn) ID() int { return c.id }
@@ -808,6 +808,8 @@ func dial(laddr, raddr *net.TCPAddr) (*TCPConn, error) {
 		rip = net.IPv4(127, 0, 0, 1)
 	}
 	key := hostPort(rip, raddr.Port)
+	// every dial attempt is visible in the packet log (even a refused one)
+	addLog(Packet{Proto: "dial", To: key, Driver: Fab.DriverMode})
 	failWrites := 0
 	for i := range Fab.rules {
 		r := &Fab.rules[i]
